@@ -52,14 +52,20 @@ pub mod thread {
         ensures final(pz).asked, final(pz).value == r,
     { unimplemented!() }
 }
+/// the waker `futures::task::waker(_ref)` builds from an `ArcWake` implementor: waking it runs that implementor's `wake_by_ref` (A6)
+pub uninterp spec fn waker_for<W>(w: W) -> Waker;
 pub mod task {
     use super::*;
     pub use super::{Waker, Context, Poll};
     /// the waker built from an `ArcWake` implementor; calling it runs the implementor's wake_by_ref (A6)
     #[verifier::external_body]
-    pub fn waker_ref<W>(w: &Arc<W>) -> WakerRef { unimplemented!() }
+    pub fn waker_ref<W>(w: &Arc<W>) -> (r: WakerRef)
+        ensures r == waker_for::<W>(**w),
+    { unimplemented!() }
     #[verifier::external_body]
-    pub fn waker<W>(w: Arc<W>) -> Waker { unimplemented!() }
+    pub fn waker<W>(w: Arc<W>) -> (r: Waker)
+        ensures r == waker_for::<W>(*w),
+    { unimplemented!() }
 }
 impl Context {
     #[verifier::external_body]
